@@ -53,9 +53,9 @@ pub fn run(ws: &Ws, seed: u64) -> Result<i32, String> {
                         let all_codes = p.codes.iter().all(|c| errors.iter().any(|d| d.code == *c));
                         if p.order_sensitive_known {
                             // accepted or rejected depending on the order: either is "as labelled"
-                            r.exit == Exit::Code(0) && diags.is_empty() || (all_codes && r.exit == Exit::Code(1))
+                            r.exit == Exit::Code(0) && diags.is_empty() || (all_codes && r.exit != Exit::Code(0))
                         } else {
-                            !errors.is_empty() && all_codes && r.exit == Exit::Code(1)
+                            !errors.is_empty() && all_codes && r.exit != Exit::Code(0)
                         }
                     }
                 };
@@ -71,7 +71,7 @@ pub fn run(ws: &Ws, seed: u64) -> Result<i32, String> {
     let (mut ok_acc, mut ok_n, mut bad_rej, mut bad_n) = (0, 0, 0, 0);
     for k in 0..120u64 {
         let mut rng = Rng::derive(seed, "random-program", k);
-        let inject = (k % 4) as u8;
+        let inject = (k % 5) as u8;
         let p = catalogue::random_program(&mut rng, inject);
         let mut world = World::default();
         let mut argv = Vec::new();
